@@ -152,6 +152,7 @@ package lua
 //@ ensures  "hash-key": !(1 <= key && key < old(MaxArrayIndex)) ==> len(tb.array) == old(len(tb.array)) && (forall k int :: 0 <= k && k < len(tb.array) ==> tb.array[k] == old(tb.array[k]))
 //@ ensures  arrid(tb.array) == old(arrid(tb.array)) || fresh(tb.array)
 //@ ensures  arrid(tb.keys) == old(arrid(tb.keys)) || fresh(tb.keys)
+//@ ensures  "maps-same-or-fresh": (tb.dict == old(tb.dict) || fresh(tb.dict)) && (tb.strdict == old(tb.strdict) || fresh(tb.strdict)) && (tb.k2i == old(tb.k2i) || fresh(tb.k2i))
 //@ modifies tb.array, tb.array[*], tb.dict, tb.strdict, tb.keys, tb.k2i, tb.keys[*], tb.dict{*}, tb.strdict{*}, tb.k2i{*}
 //@ loop 1 invariant 0 <= i && i <= index - alen && Inv_arr(tb) && Inv_hash(tb) && len(tb.array) == alen + i && alen == old(len(tb.array)) && index == key - 1 && index > alen && arrid(tb.array) != 0 && (arrid(tb.array) == old(arrid(tb.array)) || fresh(tb.array))
 //@ loop 1 invariant forall k int :: 0 <= k && k < alen ==> tb.array[k] == old(tb.array[k])
